@@ -5,6 +5,7 @@ from ..bounded import approx_common as ac
 FEW_ITERS_KEY = 'fit-no-worse-than-uniform:few-iterations'
 EXACT_ITERS = 1000
 FACTORED_ITERS = 3000
+FINAL_ITERS = 30000
 ESCALATED_ITERS = 6000
 
 
@@ -76,9 +77,9 @@ class C18(Prop):
                    'marginal_oracle "pairwise-convex" (FactorGraph(convex=True)) is excluded: it needs cvxopt, which is not installed',
                    'LocalInference does not call fix_measurements: Q is always given explicitly and proj as a tuple in domain order',
                    'iteration counts {1, 50, 300}; iters=300 only on structures with <= 6 regions (cost); disjoint-clique exactness with iters=%d and ONE noise scale for all '
-                   'measurements of a case (with noise scales 0.1 and 10 mixed, 1000 iterations leave a relative gap of 3.7e-3 and 10000 are needed; calibration); '
+                   'measurements of a case, plus cases with a clique measured twice at scales s and 2s..3s (with noise scales 0.1 and 10 mixed, 1000 iterations leave a relative gap of 3.7e-3 and 10000 are needed; calibration); '
                    'mirror descent shows long plateaus on some inputs (loss 483 after 1000 iterations, optimum 0.77 reached by 2000), so a case failing at %d iterations is '
-                   're-run once with %d before it is judged ("enough iterations")' % (EXACT_ITERS, EXACT_ITERS, ESCALATED_ITERS),
+                   're-run with %d and then %d before it is judged ("enough iterations")' % (EXACT_ITERS, EXACT_ITERS, ESCALATED_ITERS, FINAL_ITERS),
                    'fit clause with iters < 10 fails on the unchanged tree (known finding, recorded not repaired); for iters >= 10 it is enforced',
                    'metric L2, numpy backend, no structural zeros, warm_start=False']
     quick_budget_s = 80
@@ -136,6 +137,19 @@ class C18(Prop):
                 c['oracles'] = ['pairwise', 'convex', 'approx']
                 c['sigmas'] = c['sigmas'][:1]          # one noise scale for all measurements (conditioning; see assumptions)
                 dis.append(c)
+        # a clique measured twice at different (well-conditioned: factor 2..3) noise scales: the weighting 1/sigma^2 matters
+        for rep in range(1 if quick else 8):
+            for cl in ([('a', 'b'), ('a', 'b'), ('c',)], [('a',), ('b', 'c'), ('a',), ('b', 'c')]):
+                c = mk('disjoint-exact', cl, None, EXACT_ITERS)
+                del c['oracle']
+                c['oracles'] = ['pairwise', 'convex', 'approx']
+                s0 = float(rng.choice([0.5, 1.0, 2.0]))
+                c['sigmas'] = [s0, s0 * float(rng.choice([2.0, 3.0]))]
+                c['N'] = 1000
+                c['total'] = 1000.0 if c['total'] is not None else None
+                c['qkinds'] = ['eye', 'eye', 'eye'] if len(cl) == 3 else ['eye', 'dense']
+                c['tight'] = True
+                dis.append(c)
         return _interleave(gen_slow, dis, gen)
 
     def nontrivial(self, case):
@@ -155,7 +169,7 @@ class C18(Prop):
         ref = None
         if case['kind'] == 'disjoint-exact':
             cl_list = ac.tup(case['cliques'])
-            assert all(not (set(a) & set(b)) for i, a in enumerate(cl_list) for b in cl_list[i + 1:]), 'generator: cliques must be disjoint'
+            assert all(a == b or not (set(a) & set(b)) for i, a in enumerate(cl_list) for b in cl_list[i + 1:]), 'generator: distinct cliques must be disjoint'
             from mbi import FactoredInference
             fm = FactoredInference(dom, iters=FACTORED_ITERS).estimate([(Q, y.copy(), s, cl) for Q, y, s, cl in meas], total=case['total'])
             L_fi = ac.l2_loss({cl: ac.table(fm.project(cl), cl)[1] for _, _, _, cl in meas}, meas)
@@ -195,6 +209,10 @@ class C18(Prop):
             if ref is not None:
                 Lopt = min(ref['exact_estimation_loss'], ref['independent_optimum'])
                 tolv = 1e-3 * max(L0 - Lopt, 0.0) + 1e-6
+                if case.get('tight'):
+                    # well-conditioned repeated-clique cases: 2% of the optimal loss (a wrong weighting moves the loss by tens of percent;
+                    # 28 calibration instances were within 3e-5 of the optimum after 1000 iterations)
+                    tolv = min(tolv, 0.02 * Lopt + 1e-6)
                 det = dict(ref, loss=L, uniform_loss=L0, tolerance=tolv, iters=case['iters'], oracle=oracle)
                 ok = L <= Lopt + tolv
                 if not ok:
@@ -207,6 +225,15 @@ class C18(Prop):
                     L2 = ac.l2_loss(tabs2, meas) if not bad2 else float('inf')
                     det.update(loss_after_escalation=L2, escalated_iters=ESCALATED_ITERS)
                     ok = L2 <= Lopt + tolv
+                    if not ok:
+                        # the step-size restarts of mirror_descent_auto can leave a step so small that one table does not move
+                        # for thousands of iterations (observed: stuck from 50 to 6000, optimum reached by 20000): last escalation
+                        res3 = self._estimate(case, dom, meas, oracle, FINAL_ITERS)
+                        if 'exception' not in res3:
+                            tabs3, bad3 = self._tables(res3['model'], meas, attrs, shape, T_ind)
+                            L3 = ac.l2_loss(tabs3, meas) if not bad3 else float('inf')
+                            det.update(loss_after_final_escalation=L3, final_iters=FINAL_ITERS)
+                            ok = L3 <= Lopt + tolv
                 out.append(('disjoint-cliques-reach-exact-optimum' + tag, ok, det))
         return out
 
